@@ -6,6 +6,8 @@ sys.path.insert(0, os.path.dirname(os.path.dirname(os.path.abspath(__file__))))
 
 
 def main(argv):
+    import faulthandler, signal
+    faulthandler.register(signal.SIGUSR1, all_threads=True)
     if not argv:
         print(__doc__)
         return 2
